@@ -1,80 +1,128 @@
 --------------------------- MODULE VersionOverlap ---------------------------
 (***************************************************************************)
-(* C09 under concurrency - uploads of ONE key of a versioning-enabled      *)
-(* bucket that overlap each other.                                         *)
+(* C09 under concurrency - uploads and deletes of ONE key of a versioning-  *)
+(* enabled bucket that overlap each other.                                  *)
 (*                                                                         *)
-(* (a) the abstract rule (module VersionRule), on a client-visible history  *)
-(*   H.puts   upload id -> [ok (acknowledged 2xx), inv, ret]               *)
-(*   H.pre    TRUE: the key had a version "v0" before the uploads          *)
-(*   H.vers   the ids (upload ids, "v0") whose exact bytes AND ETag some   *)
-(*            listed version returns when it is read by its version id     *)
-(*   H.dup    an id is returned by more than one listed version            *)
-(*   H.cur    the id whose bytes GetObject (no version id) returns,        *)
-(*            "none" (404) or "foreign" (bytes of no upload)               *)
-(* Every acknowledged upload of a versioned bucket is a version of its own *)
-(* that stays retrievable byte-exact; the version that existed before      *)
-(* stays; the current version is the acknowledged upload that some         *)
-(* linearization puts last.                                                *)
+(* (a) the abstract rule is module VersionRule (on a client-visible         *)
+(* history): every acknowledged upload is a version of its own that stays   *)
+(* retrievable byte-exact under the version id it was acknowledged with;    *)
+(* the version that existed before stays; every delete that announced a     *)
+(* delete marker left one under the announced id; the current version is    *)
+(* what a request that can be linearized last leaves.                       *)
 (*                                                                         *)
-(* (b) what the posix backend does, one action per stretch of PutObject    *)
-(* between two observation points (verifhook sites):                       *)
+(* (b) what the posix backend does, one action per stretch between two      *)
+(* observation points (verifhook sites).                                    *)
+(* PutObject:                                                               *)
 (*   Stat     -> put.stat_name   stat(name): does the key exist NOW        *)
 (*   Body     -> put.body_done   the body is read into a temporary file    *)
 (*   Archive  -> put.attrs_done  if the key existed at Stat: the object    *)
 (*                               the name refers to NOW is copied into the *)
-(*                               versioning directory under ITS version id *)
+(*                               versioning directory under the version id *)
+(*                               it carries NOW (with its attributes)      *)
 (*   Link     -> (reply)         the temporary file is linked to the name  *)
+(* DeleteObject without version id (the current version becomes a marker):  *)
+(*   DArchive -> del.versioned   stat(name) (nothing there: success, no     *)
+(*                               marker); the object at the name is copied  *)
+(*                               into the versioning directory              *)
+(*   DMark    -> del.marker_set  the delete-marker attribute is set BY PATH *)
+(*                               on whatever the name refers to NOW         *)
+(*   DVid     -> del.vid_set     a new version id is set BY PATH likewise   *)
+(*            -> (reply)         announces the marker and that id           *)
+(* The object at the name: its data (an upload's id), whether it carries    *)
+(* the marker attribute, and which version id it carries ("own", or the id  *)
+(* a delete gave it).                                                       *)
 (* Design switch (FALSE = the code as it is):                              *)
-(*   ArchiveAtLink  the copy and the link are one step that looks at the   *)
-(*                  name again (what a per-key lock would give)            *)
+(*   Atomic   archive + link (PutObject) and archive + mark + id            *)
+(*            (DeleteObject) are one step each that looks at the name       *)
+(*            again (what a per-key critical section would give)            *)
 (***************************************************************************)
 EXTENDS Integers, Sequences, FiniteSets, TLC, Json, VersionRule
 
-\* --------------------------------------------------------- (b) the backend
-CONSTANTS Procs,          \* the uploads, e.g. {"a", "b"}
+CONSTANTS Procs,          \* the requests, e.g. {"a", "b", "d"}
+          Dels,           \* those of them that are DeleteObject requests
           Pre,            \* the key has a version before they start
-          ArchiveAtLink,  \* design switch
+          Atomic,         \* design switch
           Emit            \* print every complete behaviour as JSON
 
-VARIABLES cur,     \* "none" | "v0" | upload id: the object the name refers to
-          arch,    \* set of ids copied into the versioning directory
-          pc,      \* per upload: "start" | "stat" | "body" | "arch" | "done"
-          saw,     \* per upload: the key existed at Stat
+Puts == Procs \ Dels
+NoObj == [data |-> "none", mark |-> FALSE, tag |-> "own"]
+Obj(id) == [data |-> id, mark |-> FALSE, tag |-> "own"]
+
+VARIABLES cur,     \* the object the name refers to (NoObj: nothing)
+          arch,    \* set of objects copied into the versioning directory: one file per VERSION ID
+                   \* (a copy stored under an id that is there already replaces the earlier copy)
+          pc,      \* per request: "start" | "stat" | "body" | "arch" | "darch" | "dmark" | "done"
+          saw,     \* per request: the key existed when it looked (PutObject: at Stat; DeleteObject: at DArchive)
           inv, ret, clock, sched
 vars == <<cur, arch, pc, saw, inv, ret, clock, sched>>
 
-Init == /\ cur = (IF Pre THEN "v0" ELSE "none") /\ arch = {}
+Init == /\ cur = (IF Pre THEN Obj("v0") ELSE NoObj) /\ arch = {}
         /\ pc = [p \in Procs |-> "start"] /\ saw = [p \in Procs |-> FALSE]
         /\ inv = [p \in Procs |-> 0] /\ ret = [p \in Procs |-> 0] /\ clock = 0 /\ sched = <<>>
 
-Stat(p) == /\ pc[p] = "start"
-           /\ pc' = [pc EXCEPT ![p] = "stat"] /\ saw' = [saw EXCEPT ![p] = (cur # "none")]
-           /\ clock' = clock + 1 /\ inv' = [inv EXCEPT ![p] = clock + 1]
-           /\ sched' = Append(sched, p) /\ UNCHANGED <<cur, arch, ret>>
-Body(p) == /\ pc[p] = "stat" /\ pc' = [pc EXCEPT ![p] = "body"]
-           /\ sched' = Append(sched, p) /\ UNCHANGED <<cur, arch, saw, inv, ret, clock>>
+Step(p) == sched' = Append(sched, p)
+Invoke(p) == clock' = clock + 1 /\ inv' = [inv EXCEPT ![p] = clock + 1] /\ UNCHANGED ret
+Reply(p) == clock' = clock + 1 /\ ret' = [ret EXCEPT ![p] = clock + 1] /\ UNCHANGED inv
+There == cur.data # "none"
+\* the version id an object carries: its own (named like its data here) or one a delete gave it
+Vid(o) == IF o.tag = "own" THEN o.data ELSE o.tag
+Store(o) == {e \in arch : Vid(e) # Vid(o)} \cup {o}
+
+(******************************* PutObject *********************************)
+Stat(p) == /\ p \in Puts /\ pc[p] = "start" /\ Step(p) /\ Invoke(p)
+           /\ pc' = [pc EXCEPT ![p] = "stat"] /\ saw' = [saw EXCEPT ![p] = There]
+           /\ UNCHANGED <<cur, arch>>
+Body(p) == /\ p \in Puts /\ pc[p] = "stat" /\ Step(p) /\ pc' = [pc EXCEPT ![p] = "body"]
+           /\ UNCHANGED <<cur, arch, saw, inv, ret, clock>>
 Archive(p) ==
-    /\ pc[p] = "body" /\ pc' = [pc EXCEPT ![p] = "arch"]
-    /\ arch' = IF ArchiveAtLink THEN arch ELSE (IF saw[p] /\ cur # "none" THEN arch \cup {cur} ELSE arch)
-    /\ sched' = Append(sched, p) /\ UNCHANGED <<cur, saw, inv, ret, clock>>
+    /\ p \in Puts /\ pc[p] = "body" /\ Step(p) /\ pc' = [pc EXCEPT ![p] = "arch"]
+    /\ arch' = IF ~Atomic /\ saw[p] /\ There THEN Store(cur) ELSE arch
+    /\ UNCHANGED <<cur, saw, inv, ret, clock>>
 Link(p) ==
-    /\ pc[p] = "arch" /\ pc' = [pc EXCEPT ![p] = "done"]
-    /\ arch' = IF ArchiveAtLink /\ cur # "none" THEN arch \cup {cur} ELSE arch
-    /\ cur' = p
-    /\ clock' = clock + 1 /\ ret' = [ret EXCEPT ![p] = clock + 1]
-    /\ sched' = Append(sched, p) /\ UNCHANGED <<saw, inv>>
+    /\ p \in Puts /\ pc[p] = "arch" /\ Step(p) /\ Reply(p) /\ pc' = [pc EXCEPT ![p] = "done"]
+    /\ arch' = IF Atomic /\ There THEN Store(cur) ELSE arch
+    /\ cur' = Obj(p)
+    /\ UNCHANGED saw
+
+(****************************** DeleteObject *******************************)
+DArchive(d) ==
+    /\ d \in Dels /\ pc[d] = "start" /\ Step(d)
+    /\ saw' = [saw EXCEPT ![d] = There]
+    /\ IF ~There
+         THEN /\ pc' = [pc EXCEPT ![d] = "done"] /\ UNCHANGED <<cur, arch>>
+              /\ clock' = clock + 2 /\ inv' = [inv EXCEPT ![d] = clock + 1] /\ ret' = [ret EXCEPT ![d] = clock + 2]
+         ELSE /\ Invoke(d)
+              /\ IF Atomic
+                   THEN /\ arch' = Store(cur) /\ cur' = [data |-> cur.data, mark |-> TRUE, tag |-> d]
+                        /\ pc' = [pc EXCEPT ![d] = "dmark"]
+                   ELSE /\ arch' = Store(cur) /\ UNCHANGED cur
+                        /\ pc' = [pc EXCEPT ![d] = "darch"]
+DMark(d) ==
+    /\ d \in Dels /\ pc[d] = "darch" /\ Step(d) /\ pc' = [pc EXCEPT ![d] = "dmark"]
+    /\ cur' = IF There THEN [cur EXCEPT !.mark = TRUE] ELSE cur
+    /\ UNCHANGED <<arch, saw, inv, ret, clock>>
+DVid(d) ==
+    /\ d \in Dels /\ pc[d] = "dmark" /\ Step(d) /\ Reply(d) /\ pc' = [pc EXCEPT ![d] = "done"]
+    /\ cur' = IF There /\ ~Atomic THEN [cur EXCEPT !.tag = d] ELSE cur
+    /\ UNCHANGED <<arch, saw>>
 
 AllDone == \A p \in Procs : pc[p] = "done"
 SetToSeq2(S) == LET RECURSIVE F(_) F(T) == IF T = {} THEN <<>> ELSE LET x == CHOOSE y \in T : TRUE IN <<x>> \o F(T \ {x}) IN F(S)
-History == [puts |-> [p \in Procs |-> [ok |-> TRUE, inv |-> inv[p], ret |-> ret[p]]], pre |-> Pre,
-            vers |-> SetToSeq2(arch \cup {cur}), dup |-> FALSE, cur |-> cur]
-\* why an acknowledged upload is lost in the code as it is (for fingerprints): its object was
-\* replaced by a Link of an upload that had passed its own Archive step already
+\* what a client sees: the listed entries are the archived objects and the current one
+\* (the current object hides an archived copy stored under the same version id)
+Entries == IF There THEN {e \in arch : Vid(e) # Vid(cur)} \cup {cur} ELSE arch
+VersIds == {e.data : e \in {x \in Entries : ~x.mark /\ x.tag = "own"}}
+MarkerIds == {e.tag : e \in {x \in Entries : x.mark /\ x.tag \in Dels}}
+CurSeen == IF There /\ ~cur.mark THEN cur.data ELSE "none"
+History == [puts |-> [p \in Puts |-> [ok |-> TRUE, inv |-> inv[p], ret |-> ret[p]]],
+            dels |-> [d \in Dels |-> [ok |-> TRUE, marker |-> saw[d], inv |-> inv[d], ret |-> ret[d]]],
+            pre |-> Pre, vers |-> SetToSeq2(VersIds), markers |-> SetToSeq2(MarkerIds), dup |-> FALSE, cur |-> CurSeen]
 Report == /\ AllDone /\ Emit
-          /\ PrintT(ToJson([sched |-> sched, broken |-> SetToSeq2(Broken(History)), vers |-> History.vers, cur |-> cur]))
+          /\ PrintT(ToJson([sched |-> sched, broken |-> SetToSeq2(Broken(History)), vers |-> History.vers,
+                            markers |-> History.markers, cur |-> CurSeen]))
           /\ pc' = [p \in Procs |-> "reported"]
           /\ UNCHANGED <<cur, arch, saw, inv, ret, clock, sched>>
-Next == (\E p \in Procs : Stat(p) \/ Body(p) \/ Archive(p) \/ Link(p)) \/ Report
+Next == (\E p \in Procs : Stat(p) \/ Body(p) \/ Archive(p) \/ Link(p) \/ DArchive(p) \/ DMark(p) \/ DVid(p)) \/ Report
 Spec == Init /\ [][Next]_vars
 
 NothingLost == AllDone => HistoryOK(History)
